@@ -30,7 +30,7 @@ CONSTANTS Lifetimes,            \* lifetimes (ms) of the relation part
           Part                  \* "relation" | "machine"
 
 LifetimesQ == {100 * i : i \in 1..100} \cup {1000 * i : i \in 11..60} \cup {1333, 1334, 2001, 2666, 2667, 3999, 4000, 3600000}
-LifetimesT == 1..20000 \cup {60000 * i : i \in 1..120}
+LifetimesT == 2..20000 \cup {60000 * i : i \in 1..120}
 LifetimesG == {50 * i : i \in 1..400} \cup {1333, 1334, 2001, 2666, 2667, 3600000}
 
 \* ---- relation ----
